@@ -45,16 +45,27 @@ def run_one(schema: dict, rng, exercise: int) -> dict:
                    "input": f.get("input"), "signature": sig, "program": (f.get("program") or "")[:6000]})
     progs = []
     reads, sets = [], []
+    oid = c17_run.Oids()
+    heap: dict = {}
+    classes = c17_run._all_schema_classes(d) if d else []
+    classes = [c for c in dict.fromkeys(list(d.get("CLASSES", [])) if d else [])]
     for rec in sr.programs:
+        w = c17_run.program_world(rec, oid, heap, classes, schema["module"].split(".")[0] if sr.build_error is not None else None)
         progs.append({"code": rec["code"], "gnames": sorted(rec["gnames"] or []), "lnames_pre": sorted(rec["pre_l"]),
-                      "gnames_pre": sorted(rec["pre_g"]), "unres": [n for _, n in c17_run.unresolved_names(rec)]})
-        if "CodeBuilder(" not in rec["code"]:
-            reads += [("*", a) for r, a in c17_run.holder_attr_reads(rec)]
+                      "gnames_pre": sorted(rec["pre_g"]), "unres": [n for _, n in c17_run.unresolved_names(rec)],
+                      "glob_f": w["glob_f"], "glob_m": w["glob_m"], "expect": w["expect"], "chains_unres": w["chains_unres"],
+                      "assembly": c17_run.program_assembly(rec, oid)})
+        if not c17_run._is_lazy_stub(rec["code"]):
+            # reads rooted at a global are judged exactly (holder object + attribute) by check_closed on the world model;
+            # the name inclusion covers the reads rooted at parameters / locals (cls, self, value)
+            rg = c17_run.real_globals(rec)
+            reads += [("*", a) for r, a in c17_run.holder_attr_reads(rec) if r not in rg]
         sets += [("*", a) for r, a in c17_run.holder_attr_sets(rec)]
     out = {"idx": schema["idx"], "module": schema["module"], "tags": schema["tags"], "defloc": schema["defloc"],
            "build_error": (type(sr.build_error).__name__ + ": " + str(sr.build_error)[:200]) if sr.build_error else None,
            "findings": fs, "programs": progs, "calls": sr.calls, "errors_seen": sr.errors_seen, "info": sr.info,
-           "attr_reads": sorted(set(reads)), "attr_sets": sorted(set(sets)), "reachable": sr.reachable, "unknown_fns": sr.unknown_fns,
+           "attr_reads": sorted(set(reads)), "attr_sets": sorted(set(sets)),
+           "heap": [[o, k, sorted(a.items())] for o, (k, a) in sorted(heap.items())], "reachable": sr.reachable, "unknown_fns": sr.unknown_fns,
            "ns_not_builder": sum(1 for rec in sr.programs if rec.get("ns_is_builder_globals") is False)}
     c17_run.cleanup(sr)
     return out
